@@ -67,6 +67,8 @@ def run(ctx):
         def conf(v, m):
             k = campaign.kind_of(v)
             node_ok = v["exp"]["k"] in CLASSES or v["got"]["k"] in CLASSES or k.startswith("result:")
+            # a wrong argument handed to a member is the doing of the adapter around it (label -> integer encoding)
+            node_ok = node_ok or (k == "in-arg" and any(n["k"] in CLASSES for n in A.walk(m["prog"])))
             if k in KINDS and node_ok:
                 return True
             # ExplicitError must never be absorbed or replaced
